@@ -20,13 +20,20 @@
                                                       C10_zero_rowcol_dense (dense reading, canonical P, A)
     E constant on every non-scalar cone               C10_cone_uniform
     disabled => untouched                             C10_disabled_identity (any scalar type)
+    membership in K unaffected                        C10_equil_cone_membership, C10_uniform_scaling_preserves_cones
+    all equilibrate_* settings                        C10_equil_bounds_gen (min, max in either order),
+                                                      C10_equil_swapped_two_valued (min > max),
+                                                      C10_max_iter_zero_identity, C10_unit_bounds_identity
+    binary64                                          C10_F9_*_refuted, C10_binary64_settings, C10_rect_block_const
 
-    Not covered by a theorem (float level, see design.d/C10.md): binary64 rounding.  The
-    correspondence run measures it (DESIGN F9). *)
+    Binary64: the same model evaluated at OpsF is required to agree BITWISE with the implementation
+    on every generated problem; the one-ulp departures from the real-number conclusions are
+    stated exactly by the C10_F9_* witnesses (no rounding-error analysis for all inputs). *)
 From Coq Require Import List ZArith Reals Lra Lia.
 Import ListNotations.
 Require Import Clarabel.Base.Ops Clarabel.Csc.Model Clarabel.Csc.Spec.
 Require Import Clarabel.Equil.Model Clarabel.Equil.Spec Clarabel.Equil.Lemmas Clarabel.Equil.LemmasDense.
+Require Import Clarabel.Equil.LemmasSettings Clarabel.Equil.Cones Clarabel.Equil.LemmasCones Clarabel.Equil.FloatFacts.
 Local Open Scope R_scope.
 
 Theorem C10_equil_exact : stmt_equil_exact.
@@ -49,6 +56,40 @@ Theorem C10_cone_uniform : stmt_cone_uniform.
 Proof. exact cone_uniform_ok. Qed.
 Theorem C10_disabled_identity : forall T (O : Ops T), stmt_disabled_identity O.
 Proof. exact @disabled_identity_ok. Qed.
+
+(** settings out of the ordinary (over the reals; the binary64 counterparts are in
+    C10_binary64_settings below) *)
+Theorem C10_equil_bounds_gen : stmt_equil_bounds_gen.
+Proof. exact equil_bounds_gen_ok. Qed.
+Theorem C10_equil_swapped_two_valued : stmt_equil_swapped_two_valued.
+Proof. exact equil_swapped_two_valued_ok. Qed.
+Theorem C10_max_iter_zero_identity : stmt_max_iter_zero_identity.
+Proof. exact max_iter_zero_identity_ok. Qed.
+Theorem C10_unit_bounds_identity : stmt_unit_bounds_identity.
+Proof. exact unit_bounds_identity_ok. Qed.
+
+(** cone membership (cone predicates of Term/Spec.v): a cone-uniform positive scaling maps K onto
+    K and K* onto K*, and the e / einv returned by [setup] are cone-uniform *)
+Theorem C10_cone_scaled : forall k mu s, 0 < mu -> Spec.in_cone k s -> Spec.in_cone k (Eval.vscale OpsR mu s).
+Proof. exact cone_scaled. Qed.
+Theorem C10_uniform_scaling_preserves_cones : stmt_uniform_scaling_preserves_cones.
+Proof. exact uniform_scaling_preserves_cones_ok. Qed.
+Theorem C10_equil_cone_membership : stmt_equil_cone_membership.
+Proof. exact equil_cone_membership_ok. Qed.
+
+(** binary64 (the arithmetic of the implementation; the correspondence run demands bitwise
+    equality with this evaluation): where the real-number conclusions fail by one ulp, and which
+    operation rounds; evaluated by vm_compute *)
+Theorem C10_F9_clip_multiply_refuted : stmt_f9_clip_multiply.
+Proof. exact f9_clip_multiply_ok. Qed.
+Theorem C10_F9_rectified_mean_refuted : stmt_f9_rectified_mean.
+Proof. exact f9_rectified_mean_ok. Qed.
+Theorem C10_F9_not_bit_constant_refuted : stmt_f9_not_bit_constant.
+Proof. exact f9_not_bit_constant_ok. Qed.
+Theorem C10_rect_block_const : forall T (O : Ops T) k x n, exists v, rect_block O k (repeat x n) = repeat v n.
+Proof. exact @rect_block_const. Qed.
+Theorem C10_binary64_settings : stmt_f_settings.
+Proof. exact f_settings_ok. Qed.
 
 (** ** Non-vacuity: a concrete badly scaled instance meeting every hypothesis at once.
     n = 2 variables, m = 4 rows, cones [Nonneg(1); SOC(3)]; column 1 of [P;A] is all zero,
